@@ -67,6 +67,7 @@ type c10Observer struct {
 	stats  *VStats
 	// one-shot failure injection: the next batch update / delete syscall fails (atomically)
 	failUpd, failDel bool
+	injected         bool // an injected failure fired since the flag was last cleared
 	// a delete batch named a key the table does not hold: on a real kernel the batch stops there
 	badDelete bool
 }
@@ -85,13 +86,17 @@ func (o *c10Observer) install() {
 		if len(ks) != len(vs) {
 			panic("c10: keys/values length differ")
 		}
-		if o.cur == nil {
-			panic("c10: batch update outside an observed call")
-		}
 		if o.failUpd {
 			o.failUpd = false
+			o.injected = true
 			o.stats.Inc("inject.update_batch_failed")
 			return 0, errC10Injected
+		}
+		if o.cur == nil { // a call the harness does not bracket (cache stream): only the table is followed
+			for i, k := range ks {
+				o.shadow[c10KeyBytes(k)] = vs[i].Bitmap
+			}
+			return len(ks), nil
 		}
 		o.cur.nUpd++
 		o.cur.order = append(o.cur.order, "u")
@@ -106,14 +111,25 @@ func (o *c10Observer) install() {
 		return len(ks), nil
 	}
 	VerifC10BatchDeleteHook = func(m *ebpf.Map, keys interface{}) (int, error) {
-		ks := keys.([][4]uint32)
-		if o.cur == nil {
-			panic("c10: batch delete outside an observed call")
+		ks, isDomain := keys.([][4]uint32)
+		if !isDomain {
+			return 0, nil // another map: not C10's subject
 		}
 		if o.failDel {
 			o.failDel = false
+			o.injected = true
 			o.stats.Inc("inject.delete_batch_failed")
 			return 0, errC10Injected
+		}
+		if o.cur == nil {
+			for _, k := range ks {
+				kb := c10KeyBytes(k)
+				if _, has := o.shadow[kb]; !has {
+					o.badDelete = true
+				}
+				delete(o.shadow, kb)
+			}
+			return len(ks), nil
 		}
 		o.cur.nDel++
 		o.cur.order = append(o.cur.order, "d")
@@ -169,12 +185,23 @@ func c10OwnerTok(s string) string {
 	return s
 }
 
+// bookkeeping: a delete batch named a key the table does not hold (harmless since BpfMapBatchDelete
+// continues past a missing key, fix 3beb53a)
+func (o *c10Observer) absentDelete() string {
+	if o.badDelete {
+		o.badDelete = false
+		return " deleted-absent-key"
+	}
+	return ""
+}
+
 func (o *c10Observer) takeCalls() string {
 	calls := o.calls
 	o.calls = nil
 	if len(calls) == 0 {
-		return "calls=none"
+		return "calls=none" + o.absentDelete()
 	}
+	defer o.absentDelete()
 	var sb strings.Builder
 	sb.WriteString("calls=")
 	for _, c := range calls {
@@ -227,12 +254,7 @@ func c10FpKeys(ks [][16]byte) uint64 {
 
 // size and fingerprint of the whole table, compared on every line
 func (o *c10Observer) tableFp() string {
-	bad := ""
-	if o.badDelete {
-		o.badDelete = false
-		bad = " DELETE-OF-ABSENT-KEY"
-	}
-	return fmt.Sprintf("k=%d t=%d%s", len(o.shadow), c10FpPairs(o.shadow), bad)
+	return fmt.Sprintf("k=%d t=%d", len(o.shadow), c10FpPairs(o.shadow))
 }
 
 func (o *c10Observer) kernelStr() string {
@@ -561,7 +583,7 @@ func c10RunTrackerStream(t *testing.T, stats *VStats) {
 				obs.begin()
 				err := f()
 				obs.end(owner, err == nil && keepOnNil)
-				return c10Line("e="+c10ErrBit(err)+" "+obs.tableFp(), "class="+c10ErrTok(err)+" "+obs.takeCalls())
+				return c10Line(obs.tableFp(), "e="+c10ErrBit(err)+" class="+c10ErrTok(err)+" "+obs.takeCalls())
 			})
 		}
 		for i := 0; i < nOps; i++ {
@@ -712,9 +734,11 @@ type c10Cache struct {
 	t0      time.Time
 	cfg     [3]int
 	fixed   map[string]int
-	order   []string // keys for which a delete callback ran during the current op
-	synced  []string // keys for which an access callback ran during the current op
-	gen     int
+	// observation of one op (filled by observe(), relative to the snapshot tick() took):
+	order  []string         // keys that left the cache (sorted)
+	synced []string         // keys whose cached object got a new lastRouteSyncNano stamp (refresh claimed)
+	before map[string]int64 // key -> lastRouteSyncNano before the op
+	gen    int
 	// real-loops mode: the controller is built by NewDnsController, its janitor ticker, evictor and refresh
 	// worker goroutines run for real inside the synctest bubble
 	real     bool
@@ -728,7 +752,6 @@ type c10Cache struct {
 // a control plane of one generation: production dnsControllerOption() wiring (wrapped for observation only),
 // production NewCache closure over a stub domain matcher.
 func (w *c10Cache) newGeneration(bpf *bpfObjects) (*controlPlaneCore, *ControlPlane, *DnsControllerOption) {
-	obs := w.obs
 	core := &controlPlaneCore{domainRouting: newDomainRoutingTracker(), log: w.log}
 	core.bpf.Store(bpf)
 	plane := &ControlPlane{core: core, log: w.log}
@@ -738,23 +761,14 @@ func (w *c10Cache) newGeneration(bpf *bpfObjects) (*controlPlaneCore, *ControlPl
 	plane.dnsMaxCacheSize = w.cfg[2]
 	plane.dnsFixedDomainTtl = w.fixed
 	opt := plane.dnsControllerOption()
+	// race probe only: a complete operation of "another goroutine" between the cache-map mutation and the sync
 	if access := opt.CacheAccessCallback; access != nil {
 		opt.CacheAccessCallback = func(c *DnsCache) error {
 			if f := w.midAccess; f != nil {
 				w.midAccess = nil
 				f()
 			}
-			obs.begin()
-			err := access(c)
-			owner := ""
-			if c != nil {
-				owner = c.RouteOwnerKey
-			}
-			obs.end(owner, err == nil && c != nil)
-			if err == nil && c != nil {
-				w.synced = append(w.synced, owner)
-			}
-			return err
+			return access(c)
 		}
 	}
 	if del := opt.CacheDeleteCallback; del != nil {
@@ -763,27 +777,7 @@ func (w *c10Cache) newGeneration(bpf *bpfObjects) (*controlPlaneCore, *ControlPl
 				w.midDelete = nil
 				f()
 			}
-			obs.begin()
-			err := del(key, c)
-			owner := ""
-			if c != nil {
-				owner = c.RouteOwnerKey
-			}
-			obs.end(owner, err == nil && c != nil)
-			w.order = append(w.order, key)
-			return err
-		}
-	}
-	if rm := opt.CacheRemoveCallback; rm != nil { // not wired in the pinned code; observed if it ever is
-		opt.CacheRemoveCallback = func(c *DnsCache) error {
-			obs.begin()
-			err := rm(c)
-			owner := ""
-			if c != nil {
-				owner = c.RouteOwnerKey
-			}
-			obs.end(owner, err == nil && c != nil)
-			return err
+			return del(key, c)
 		}
 	}
 	return core, plane, opt
@@ -792,6 +786,7 @@ func (w *c10Cache) newGeneration(bpf *bpfObjects) (*controlPlaneCore, *ControlPl
 func c10NewCacheWorld(obs *c10Observer, stats *VStats, optEnabled bool, optTtl, maxSize int, real ...bool) *c10Cache {
 	w := &c10Cache{obs: obs, stats: stats, t0: time.Now(), matcher: &c10Matcher{}, fixed: map[string]int{}}
 	w.real = len(real) > 0 && real[0]
+	obs.calls, obs.cur, obs.badDelete, obs.injected = nil, nil, false, false
 	w.cfg = [3]int{0, optTtl, maxSize}
 	if optEnabled {
 		w.cfg[0] = 1
@@ -879,6 +874,34 @@ func c10B(b bool) string {
 	return "0"
 }
 
+func (w *c10Cache) snapshot() {
+	w.before = map[string]int64{}
+	w.ctrl.dnsCache.Range(func(k, v any) bool {
+		w.before[k.(string)] = v.(*DnsCache).lastRouteSyncNano.Load()
+		return true
+	})
+	w.order, w.synced = nil, nil
+}
+
+func (w *c10Cache) observe() {
+	w.order, w.synced = nil, nil
+	now := map[string]bool{}
+	w.ctrl.dnsCache.Range(func(k, v any) bool {
+		now[k.(string)] = true
+		if st, ok := w.before[k.(string)]; ok && st != v.(*DnsCache).lastRouteSyncNano.Load() {
+			w.synced = append(w.synced, k.(string))
+		}
+		return true
+	})
+	for k := range w.before {
+		if !now[k] {
+			w.order = append(w.order, k)
+		}
+	}
+	sort.Strings(w.order)
+	sort.Strings(w.synced)
+}
+
 func (w *c10Cache) summary(extra string) string {
 	if c10SharedAddrs(w.core.domainRouting) > 0 {
 		w.stats.Inc("c.ops_ending_with_a_shared_address")
@@ -893,16 +916,17 @@ func (w *c10Cache) summary(extra string) string {
 		}
 		w.bg.drainEvictorSpill()
 	}
+	w.observe()
 	ok, n := w.mirror()
 	if !ok {
 		w.stats.Inc("c.mirror_broken")
 	}
-	if w.real { // which goroutine's call lands on which line is a race: not reported
-		w.obs.takeCalls()
-		return c10Line(fmt.Sprintf("n=%d %s m=%s", n, w.obs.tableFp(), c10B(ok)), extra+"calls=~ p=~")
+	w.obs.takeCalls()
+	if w.real { // the real worker drains the queue concurrently: its length is not reported
+		return c10Line(fmt.Sprintf("n=%d %s m=%s", n, w.obs.tableFp(), c10B(ok)), extra+"p=~"+w.obs.absentDelete())
 	}
 	return c10Line(fmt.Sprintf("n=%d %s m=%s", n, w.obs.tableFp(), c10B(ok)),
-		fmt.Sprintf("%s%s p=%d", extra, w.obs.takeCalls(), len(w.ctrl.bpfUpdateCh)))
+		fmt.Sprintf("%sp=%d%s", extra, len(w.ctrl.bpfUpdateCh), w.obs.absentDelete()))
 }
 
 func (w *c10Cache) dump() string {
@@ -972,6 +996,7 @@ type c10Hist struct {
 	maxSize int
 	lastTtl int
 	failed  bool // a publish failure was injected in this history
+	keys    []c10Key
 }
 
 // every op starts one (virtual) nanosecond after the previous one
@@ -980,7 +1005,7 @@ func (h *c10Hist) tick() {
 		h.janReal() // the real ticker fires on this very nanosecond: that is an op of its own
 	}
 	time.Sleep(time.Nanosecond)
-	h.w.order, h.w.synced = nil, nil
+	h.w.snapshot()
 }
 
 // time until the next tick of the real janitor's ticker
@@ -992,7 +1017,7 @@ func (h *c10Hist) untilJanitor() time.Duration {
 // one run of the REAL janitor goroutine (its 30 s ticker fires, evictExpiredDnsCache + evictIdleDnsForwarders)
 func (h *c10Hist) janReal() {
 	w := h.w
-	w.order, w.synced = nil, nil
+	w.snapshot()
 	time.Sleep(time.Nanosecond)
 	out := VRecover(func() string { return w.summary("legal=1 ") }) // summary waits for the goroutine
 	if len(w.order) > 0 {
@@ -1052,8 +1077,10 @@ func (h *c10Hist) put(k c10Key, ttl int, bm string, ans []string, unkeyed bool) 
 			err = w.ctrl.UpdateDnsCacheTtlWithKey(k.key(), host, k.qtype, rrs, nil, nil, ttl)
 		}
 		w.obs.failUpd = false
+		fired := w.obs.injected
+		w.obs.injected = false
 		if err != nil {
-			if !errors.Is(err, errC10Injected) {
+			if !fired {
 				return "err:" + err.Error()
 			}
 			verb = "putf" // entry stored, publish failed: the table lags until the refresh worker retries
@@ -1062,6 +1089,15 @@ func (h *c10Hist) put(k c10Key, ttl int, bm string, ans []string, unkeyed bool) 
 		}
 		return w.summary("")
 	})
+	// did the code store a new object under the key? (whether an answer is cached at all is not C10's subject)
+	nowObj, has := w.ctrl.dnsCache.Load(k.key())
+	stored := has && nowObj != prevObj
+	if verb == "put" {
+		verb = "put " + c10B(stored)
+		if !stored {
+			h.stats.Inc("c.op.put_not_stored")
+		}
+	}
 	op := strings.TrimRight(fmt.Sprintf("%s %s %s %d %d %s %s %s", verb, keyTok, k.name, k.qtype, ttl, fttlTok, bm, strings.Join(ans, " ")), " ")
 	h.stats.Inc("c.op.put")
 	if unkeyed {
@@ -1094,10 +1130,8 @@ func (h *c10Hist) look(k c10Key, ig bool) {
 	w := h.w
 	before := len(w.ctrl.bpfUpdateCh)
 	out := VRecover(func() string { w.ctrl.LookupDnsRespCache(k.key(), ig); return w.summary("pred=1 ") })
-	queued := len(w.ctrl.bpfUpdateCh) > before
-	if w.real { // the real worker has run already: its access callback is the evidence
-		queued = len(w.synced) > 0
-	}
+	_ = before
+	queued := len(w.synced) > 0 // NeedsBpfUpdate claimed the refresh (new lastRouteSyncNano stamp)
 	evicted := len(w.order) > 0
 	if queued {
 		h.stats.Inc("c.refresh_queued")
@@ -1205,10 +1239,8 @@ func (h *c10Hist) hot(k c10Key) {
 		return w.summary("pred=1 ")
 	})
 	packed := entry != nil && entry.GetPackedResponse() != nil
-	queued := len(w.ctrl.bpfUpdateCh) > before
-	if w.real {
-		queued = len(w.synced) > 0
-	}
+	_ = before
+	queued := len(w.synced) > 0
 	evicted := len(w.order) > 0
 	if queued {
 		h.stats.Inc("c.refresh_queued")
@@ -1226,53 +1258,91 @@ func (h *c10Hist) hot(k c10Key) {
 	}
 }
 
-// reload with a reused controller: new core (fresh tracker) on the shared BPF objects, the shared map is
-// cleared, the cache cloned from the old generation is replayed into the reused controller — all real code:
-// CloneDnsCache, clearReloadDomainRoutingMap, ReuseForReload, replayDnsReloadCache (-> RestoreReloadCache).
-func (h *c10Hist) reload(newBitmaps map[string]string) {
-	h.tick()
-	w := h.w
-	var assign []string
-	out := VRecover(func() string {
-		clones := w.plane.CloneDnsCache()
-		core2, plane2, opt2 := w.newGeneration(w.core.bpf.Load())
-		if err := clearReloadDomainRoutingMap(core2.bpf.Load()); err != nil {
-			return "err:" + err.Error()
+// the bitmaps of every cached entry, by key (what the model is told a reload / rollback restored)
+func (w *c10Cache) assignStr() string {
+	var keys []string
+	w.ctrl.dnsCache.Range(func(k, _ any) bool { keys = append(keys, k.(string)); return true })
+	sort.Strings(keys)
+	var parts []string
+	for _, k := range keys {
+		if v, ok := w.ctrl.dnsCache.Load(k); ok {
+			parts = append(parts, k+"="+c10Bits(v.(*DnsCache).DomainBitmap))
 		}
-		ctrl2, err := w.ctrl.ReuseForReload(opt2, nil)
+	}
+	return strings.Join(parts, " ")
+}
+
+// A reload in the order PRODUCTION composes it (staged same-port reload, dns section unchanged; cmd/run.go,
+// ControlPlane.Serve): CloneDnsCache -> NewControlPlane builds its OWN controller (NewDnsController), pending =
+// clones -> [the old generation keeps serving: `between`] -> CommitPreparedDatapath's DNS steps
+// (clearReloadDomainRoutingMap, replayDnsReloadCache into the own controller; commitInterfaceBindings needs a
+// netns and is left out) -> activatePreparedRuntime -> reuse hook = ControlPlane.ReuseDNSControllerFrom (own
+// controller closed, the OLD shared store adopted). All real functions in their real order.
+func (h *c10Hist) reload(newBitmaps map[string]string) {
+	w := h.w
+	var plane2 *ControlPlane
+	var core2 *controlPlaneCore
+	prep := VRecover(func() string {
+		clones := w.plane.CloneDnsCache()
+		var opt2 *DnsControllerOption
+		core2, plane2, opt2 = w.newGeneration(w.core.bpf.Load())
+		own, err := NewDnsController(nil, opt2)
 		if err != nil {
 			return "err:" + err.Error()
 		}
-		plane2.dnsController = ctrl2
+		plane2.dnsController = own
 		plane2.pendingDnsReloadCache = clones
+		return ""
+	})
+	// while the new generation is prepared (seconds in production) the old one keeps caching and removing
+	if h.keys != nil && h.r != nil && h.r.Chance(0.5) {
+		for n := h.r.Range(1, 2); n > 0; n-- {
+			k := h.keys[h.r.Intn(len(h.keys))]
+			if h.r.Bool() {
+				h.put(k, 300, h.g.bitmap(), h.g.answers(), false)
+			} else {
+				h.del(k)
+			}
+		}
+		h.stats.Inc("c.reloads_with_traffic_during_preparation")
+	}
+	h.tick()
+	out := VRecover(func() string {
+		if prep != "" {
+			return prep
+		}
+		if err := clearReloadDomainRoutingMap(core2.bpf.Load()); err != nil {
+			return "err:" + err.Error()
+		}
 		w.matcher.byFqdn = map[string][]uint32{}
 		for fqdn, bm := range newBitmaps {
 			w.matcher.byFqdn[fqdn] = c10ParseBits(bm, 32)
 		}
-		w.synced = nil
 		plane2.replayDnsReloadCache()
-		w.matcher.byFqdn = nil
-		w.core, w.plane, w.ctrl = core2, plane2, ctrl2
-		w.gen++
-		for _, key := range w.synced {
-			if v, ok := w.ctrl.dnsCache.Load(key); ok {
-				assign = append(assign, key+"="+c10Bits(v.(*DnsCache).DomainBitmap))
-			}
+		if !plane2.ReuseDNSControllerFrom(w.plane) {
+			return "err:ReuseDNSControllerFrom refused"
 		}
+		w.matcher.byFqdn = nil
+		w.core, w.plane, w.ctrl = core2, plane2, plane2.dnsController
+		w.gen++
 		return w.summary("legal=1 ")
 	})
 	h.stats.Inc("c.op.reload")
-	h.stats.Add("c.reload_restored_entries", len(assign))
-	h.st.Emit(strings.TrimRight("reload "+strings.Join(assign, " "), " "), out)
+	h.st.Emit(strings.TrimRight("reload "+w.assignStr(), " "), out)
 }
 
 // reload ROLLBACK of the current generation: the real ControlPlane.RebuildReloadDatapath (BuildKernspace of a
 // one-rule program, ReplaceLpmIndices, clearReloadDomainRoutingMap, CloneDnsCache, replayDnsReloadCache).
 // For the model it is a reload step: a cleared table and the cache restored into it.
 func (h *c10Hist) rollback(newBitmaps map[string]string) {
-	h.tick()
 	w := h.w
-	var assign []string
+	if !c10BpfMapsAllowed() {
+		// RebuildReloadDatapath writes routing_meta_map with a real syscall: without CAP_BPF the op is skipped
+		// (the check then exits 2 on the rollback floor with this counter as the explanation, never a VIOLATION)
+		h.stats.Inc("c.rollback_skipped_no_bpf_privilege")
+		return
+	}
+	h.tick()
 	out := VRecover(func() string {
 		if w.plane.routingKernspaceSnapshot == nil {
 			w.plane.routingKernspaceSnapshot = &routingKernspaceSnapshot{rules: []bpfMatchSet{{Type: uint8(consts.MatchType_Fallback)}}}
@@ -1289,21 +1359,32 @@ func (h *c10Hist) rollback(newBitmaps map[string]string) {
 		for fqdn, bm := range newBitmaps {
 			w.matcher.byFqdn[fqdn] = c10ParseBits(bm, 32)
 		}
-		w.synced = nil
 		err := w.plane.RebuildReloadDatapath()
 		w.matcher.byFqdn = nil
 		if err != nil {
 			return "err:" + err.Error()
 		}
-		for _, key := range w.synced {
-			if v, ok := w.ctrl.dnsCache.Load(key); ok {
-				assign = append(assign, key+"="+c10Bits(v.(*DnsCache).DomainBitmap))
-			}
-		}
 		return w.summary("legal=1 ")
 	})
 	h.stats.Inc("c.op.rollback")
-	h.st.Emit(strings.TrimRight("reload "+strings.Join(assign, " "), " "), out)
+	h.st.Emit(strings.TrimRight("reload "+w.assignStr(), " "), out)
+}
+
+var c10BpfProbe struct {
+	done, ok bool
+}
+
+// can this process create a kernel BPF map at all?
+func c10BpfMapsAllowed() bool {
+	if !c10BpfProbe.done {
+		c10BpfProbe.done = true
+		m, err := ebpf.NewMap(&ebpf.MapSpec{Type: ebpf.Array, KeySize: 4, ValueSize: 4, MaxEntries: 1})
+		if err == nil {
+			c10BpfProbe.ok = true
+			_ = m.Close()
+		}
+	}
+	return c10BpfProbe.ok
 }
 
 func (h *c10Hist) dump() {
@@ -1349,6 +1430,7 @@ func c10RunCacheHistory(st *VStream, r *VRand, obs *c10Observer, stats *VStats, 
 			keys = append(keys, k)
 		}
 	}
+	h.keys = keys
 	randomPut := func(k c10Key) {
 		h.put(k, []int{0, 1, 2, 10, 60, 61, 100, 300}[r.Intn(8)], g.bitmap(), g.answers(), k.scope == "" && r.Chance(0.3))
 	}
@@ -1356,11 +1438,12 @@ func c10RunCacheHistory(st *VStream, r *VRand, obs *c10Observer, stats *VStats, 
 		// skeleton that reaches the deferred refresh worker: insert with a long TTL, let >= 60 s pass, look the
 		// entry up (queues a refresh), then mutate the entry (or not) before the worker runs.
 		k := keys[0]
-		h.put(k, []int{100, 300}[r.Intn(2)], g.bitmap(), g.answers(), false)
+		long := int(3*MaxBpfUpdateInterval/time.Second) + 100 // outlives the skeleton
+		h.put(k, long, g.bitmap(), g.answers(), false)
 		if len(keys) > 1 && r.Bool() {
-			h.put(keys[1], 300, g.bitmap(), g.answers(), false)
+			h.put(keys[1], long, g.bitmap(), g.answers(), false)
 		}
-		h.sleep([]time.Duration{60 * time.Second, 61 * time.Second, 75 * time.Second}[r.Intn(3)])
+		h.sleep([]time.Duration{MaxBpfUpdateInterval, MaxBpfUpdateInterval + time.Second, MaxBpfUpdateInterval + MaxBpfUpdateInterval/4}[r.Intn(3)])
 		if r.Bool() {
 			h.look(k, false)
 		} else {
@@ -1374,7 +1457,7 @@ func c10RunCacheHistory(st *VStream, r *VRand, obs *c10Observer, stats *VStats, 
 		case 2:
 			h.fam(k)
 		case 3:
-			h.sleep(61 * time.Second)
+			h.sleep(MaxBpfUpdateInterval + time.Second)
 			h.look(k, false) // a second refresh queued behind the first
 		case 4:
 			h.put(k, 100, g.bitmap(), g.answers(), false)
@@ -1391,12 +1474,13 @@ func c10RunCacheHistory(st *VStream, r *VRand, obs *c10Observer, stats *VStats, 
 		// generation, then reload twice more and refresh again (the worker must still serve the live generation)
 		k := keys[0]
 		h.reload(h.newBitmaps())
-		h.put(k, 300, "5.40", []string{"4:0a000001", "4:0a000002"}, false)
-		h.sleep(61 * time.Second)
+		long := int(3*MaxBpfUpdateInterval/time.Second) + 100
+		h.put(k, long, "5.40", []string{"4:0a000001", "4:0a000002"}, false)
+		h.sleep(MaxBpfUpdateInterval + time.Second)
 		h.look(k, false)
 		h.reload(h.newBitmaps())
 		h.reload(h.newBitmaps())
-		h.sleep(61 * time.Second)
+		h.sleep(MaxBpfUpdateInterval + time.Second)
 		h.look(k, false)
 		h.dump()
 		stats.Inc("c.histories_with_late_started_worker")
@@ -1436,13 +1520,13 @@ func c10RunCacheHistory(st *VStream, r *VRand, obs *c10Observer, stats *VStats, 
 			case 4:
 				d = time.Duration(h.lastTtl)*time.Second - time.Duration(r.Range(1, 4))*time.Nanosecond
 			case 5:
-				d = 30 * time.Second
+				d = dnsCacheJanitorInterval * time.Duration(r.Range(1, 3)) // the real janitor's period
 			case 6:
-				d = 60*time.Second - time.Duration(r.Range(1, 4))*time.Nanosecond
+				d = MaxBpfUpdateInterval - time.Duration(r.Range(1, 4))*time.Nanosecond
 			case 7:
-				d = 60 * time.Second
+				d = MaxBpfUpdateInterval
 			default:
-				d = time.Duration(r.Range(1, 120)) * time.Second
+				d = time.Duration(r.Range(1, int(2*MaxBpfUpdateInterval/time.Second))) * time.Second
 			}
 			if d <= 0 {
 				d = time.Nanosecond
